@@ -9,7 +9,7 @@ EXTENDS XssOps, TLC, Json
 
 CONSTANTS Alphabet,    \* bytes the body is built from
           MaxLen,      \* maximal body length
-          Prefixes,    \* set of fixed openers put in front of the body (e.g. {<<>>} or {"<![CDATA["})
+          Openers,    \* set of fixed openers put in front of the body (e.g. {<<>>} or {"<![CDATA["})
           CtxSet,      \* start contexts explored
           DoExport     \* print terminal behaviours as JSON for replay into the real code
 
@@ -28,7 +28,7 @@ vars == <<s, ctx, c, depth, toks, attr, fired, phase>>
 AllStrings == UNION {[1..k -> Alphabet] : k \in 0..MaxLen}
 
 Init ==
-  /\ \E p \in Prefixes : \E body \in AllStrings : s = p \o body
+  /\ \E p \in Openers : \E body \in AllStrings : s = p \o body
   /\ ctx \in CtxSet
   /\ c = H5Init(ctx)
   /\ depth = 0
